@@ -602,7 +602,8 @@ pub fn nonsym_cone_battery(
         (0..n).map(|i| { let mut e = vec![0.0; n]; e[i] = 1.0; let mut y = vec![0.0; n]; let mut w = vec![0.0; n]; c.mul_Hs(&mut y, &e, &mut w); y }).collect()
     };
     let mut c = make_cone(cone);
-    let (mut uz, mut us) = (vec![0.0; n], vec![0.0; n]);
+    // (the buffers arrive dirty, as they do at the start of a second solve)
+    let (mut uz, mut us) = (vec![7.5; n], vec![-3.25; n]);
     c.unit_initialization(&mut uz, &mut us);
     out.unit_z = uz;
     out.unit_s = us;
